@@ -66,7 +66,7 @@ def lane_setup():
     Atom = atom_mod.Atom
     vec = vector
     for n in ("swap!", "reset!", "swap-vals!", "reset-vals!", "compare-and-set!", "deref", "atom",
-              "add-watch", "remove-watch", "set-validator!"):
+              "add-watch", "remove-watch", "set-validator!"):   # add-watch/remove-watch are used by dynamic watch ops
         _fns[n] = common.core_fn(n)
     trace.register(atom_mod.Atom, [".py"], opcode=True)
     trace.register(ref_mod.RefBase, [".py"], opcode=True)
@@ -100,6 +100,16 @@ def gen(rng, tier, index):
         for t in tasks:
             for o in t:
                 o["fault"] = None
+    if rng.random() < 0.3:
+        # watches registered / removed WHILE other threads update: each dynamic key is added by one op
+        # and possibly removed by a later op of the same task, so the final watch set is determined
+        for d in range(rng.choice([1, 2])):
+            ti = rng.randrange(len(tasks))
+            pos = rng.randrange(len(tasks[ti]) + 1)
+            tasks[ti].insert(pos, {"op": "add-watch", "w": f"d{d}", "fault": None})
+            if rng.random() < 0.4:
+                pos2 = rng.randrange(pos + 1, len(tasks[ti]) + 1)
+                tasks[ti].insert(pos2, {"op": "remove-watch", "w": f"d{d}", "fault": None})
     wl = {"mode": "conc", "tasks": tasks, "watches": rng.choice([0, 0, 1, 2]),
           "validator": bool(faults or rng.random() < 0.3), "faults": faults}
     return wl
@@ -218,7 +228,7 @@ def run(workload, k):
     if workload["mode"] == "solo":
         return _run_solo(workload, k)
     st = {"ops": [], "watch": collections.defaultdict(list), "observed": [], "faults": {},
-          "fcalls": collections.Counter()}
+          "fcalls": collections.Counter(), "dwatch": {}, "final_watch_keys": None}
 
     def validator(v):
         P.point("validator")
@@ -266,7 +276,7 @@ def run(workload, k):
 
     def do_op(op, opid):
         kind = op["op"]
-        bit = 1 << op["g"]
+        bit = 1 << op.get("g", 0)
         if kind in ("swap!", "swap-vals!"):
             f = make_f(op, opid)
             if op.get("extra"):
@@ -285,6 +295,17 @@ def run(workload, k):
             return _fns["compare-and-set!"](a, op["expected"], op["expected"] | bit)
         if kind == "deref":
             return _fns["deref"](a)
+        if kind == "add-watch":
+            key = op["w"]
+
+            def dwf(k_, ref, old, new, _key=key):
+                P.point("watch")
+                st["dwatch"].setdefault(_key, []).append((old, new))
+            _fns["add-watch"](a, key, dwf)
+            return None
+        if kind == "remove-watch":
+            _fns["remove-watch"](a, op["w"])
+            return None
         raise ValueError(kind)
 
     def task_fn(ti, ops):
@@ -310,6 +331,7 @@ def run(workload, k):
         kv["faults"] = st["faults"]
         return kv
     final = a.deref()
+    st["final_watch_keys"] = sorted(str(x) for x in a._watches.keys())
     st["ops"].append(lin.Op("final", "oracle", k.seq + 1, k.seq + 2, "deref", {"op": "deref"},
                             ("ok", _plain(final))))
     return _judge(workload, st)
@@ -320,6 +342,8 @@ def _step(state, o):
     kind = o.kind
     op = o.args
     res = o.result
+    if kind in ("add-watch", "remove-watch"):
+        return [(state, None)] if res == ("ok", None) else []
     if kind == "deref":
         if res == ("ok", state):
             return [(state, None)]
@@ -337,19 +361,19 @@ def _step(state, o):
             out.append((state, None))      # legal only when the first attempt lost a race
         want = [new, state] if kind == "swap-vals!" else new
         if res == ("ok", want):
-            out.append((new, (state, new)))
+            out.append((new, (state, new, o.id)))
         return out
     if kind in MUT_RESET:
         if flt == "reject":
             return [(state, None)] if res == ("exc", "ExceptionInfo") else []
         want = [bit, state] if kind == "reset-vals!" else bit
         if res == ("ok", want):
-            return [(bit, (state, bit))]
+            return [(bit, (state, bit, o.id))]
         return []
     if kind == "cas":
         exp = op["expected"]
         if state == exp:
-            return [(exp | bit, (state, exp | bit))] if res == ("ok", True) else []
+            return [(exp | bit, (state, exp | bit, o.id))] if res == ("ok", True) else []
         return [(state, None)] if res == ("ok", False) else []
     return []
 
@@ -380,24 +404,51 @@ def _judge(workload, st):
                 return R.verdict("violation", f"{ID}/validator-bypass",
                                  {"value": v, "history": [x.to_json() for x in ops]}, faults=faults)
     nw = workload["watches"]
+    byid = {o.id: o for o in ops}
+    dyn = {}
+    for o in ops:
+        if o.kind == "add-watch":
+            dyn.setdefault(o.args["w"], {})["add"] = o
+        elif o.kind == "remove-watch":
+            dyn.setdefault(o.args["w"], {})["rem"] = o
+    # the set of registered watches at the end is determined (lost add/remove = lost update)
+    want_keys = sorted([f"w{i}" for i in range(nw)] + [w for w, d in dyn.items() if "add" in d and "rem" not in d])
+    if st["final_watch_keys"] is not None and st["final_watch_keys"] != want_keys:
+        return R.verdict("violation", f"{ID}/watch-registration-lost",
+                         {"registered": st["final_watch_keys"], "expected": want_keys,
+                          "history": [x.to_json() for x in ops]}, faults=faults)
 
     def final(state, notes):
-        trans = collections.Counter(n for n in notes if n is not None)
+        trans3 = [n for n in notes if n is not None]
+        trans = collections.Counter((a_, b_) for a_, b_, _ in trans3)
         for w in range(nw):
             if collections.Counter(st["watch"][w]) != trans:
                 return False
+        for w, d in dyn.items():
+            seen = collections.Counter(st["dwatch"].get(w, []))
+            if any(c > 1 for c in seen.values()) or any(p not in trans for p in seen):
+                return False
+            add, rem = d.get("add"), d.get("rem")
+            for a_, b_, oid in trans3:
+                o = byid[oid]
+                if add is not None and add.ret < o.inv and (rem is None or rem.inv > o.ret):
+                    if (a_, b_) not in seen:
+                        return False        # registered for the whole op, yet not notified
+                if (add is None or add.inv > o.ret or (rem is not None and rem.ret < o.inv)) and (a_, b_) in seen:
+                    return False            # not registered at any point of the op, yet notified
         return True
 
+    use_final = bool(nw or dyn)
     try:
-        res = lin.linearize(ops, 0, _step, final if nw else None)
+        res = lin.linearize(ops, 0, _step, final if use_final else None)
     except lin.SearchBudget:
         return R.verdict("inconclusive", f"{ID}/lin-budget", "linearizability search budget", faults=faults)
     if res is None:
         # distinguish a pure watch mismatch from a register violation
-        res2 = lin.linearize(ops, 0, _step, None) if nw else None
+        res2 = lin.linearize(ops, 0, _step, None) if use_final else None
         if res2 is not None:
             return R.verdict("violation", f"{ID}/watch-mismatch",
-                             {"watch": {str(w): st["watch"][w] for w in range(nw)},
+                             {"watch": {str(w): st["watch"][w] for w in range(nw)}, "dynamic_watch": st["dwatch"],
                               "linearization": res2[0], "transitions": [n for n in res2[1] if n],
                               "history": [x.to_json() for x in ops]}, faults=faults)
         return R.verdict("violation", f"{ID}/not-linearizable",
